@@ -403,6 +403,12 @@ __get_dir(struct dt_dt_s d, const struct dseq_clo_s *clo)
 		struct dt_dt_s tmp = __seq_next(d, clo);
 		return dt_dtcmp(tmp, d);
 	}
+	/* times: a trial addition as well, date units don't move a time */
+	with (struct dt_dt_s tmp = date_add(d, clo->ite, clo->nite)) {
+		if (tmp.t.u == d.t.u && tmp.d.u == d.d.u) {
+			return 0;
+		}
+	}
 	if (clo->ite->dv > 0) {
 		return 1;
 	} else if (clo->ite->dv < 0) {
